@@ -90,8 +90,12 @@ class DataArray(Entity, DataSet):
         """
         index = len(self.dimensions) + 1
         setdim = SetDimension.create_new(self, index)
-        if labels is not None:
-            setdim.labels = labels
+        try:
+            if labels is not None:
+                setdim.labels = labels
+        except Exception:
+            self._drop_dimension(index)
+            raise
         if self.file.auto_update_timestamps:
             self.force_updated_at()
         return setdim
@@ -115,13 +119,17 @@ class DataArray(Entity, DataSet):
         :rtype: nixio.SampledDimension
         """
         index = len(self.dimensions) + 1
-        smpldim = SampledDimension.create_new(self, index, sampling_interval)
-        if label:
-            smpldim.label = label
-        if unit:
-            smpldim.unit = unit
-        if offset:
-            smpldim.offset = offset
+        try:
+            smpldim = SampledDimension.create_new(self, index, sampling_interval)
+            if label:
+                smpldim.label = label
+            if unit:
+                smpldim.unit = unit
+            if offset:
+                smpldim.offset = offset
+        except Exception:
+            self._drop_dimension(index)
+            raise
         if self.file.auto_update_timestamps:
             self.force_updated_at()
         return smpldim
@@ -143,13 +151,17 @@ class DataArray(Entity, DataSet):
         """
         index = len(self.dimensions) + 1
 
-        rdim = RangeDimension.create_new(self, index, ticks)
-        rdim.label = label
-        rdim.unit = unit
+        try:
+            rdim = RangeDimension.create_new(self, index, ticks)
+            rdim.label = label
+            rdim.unit = unit
+            if ticks is not None:
+                rdim.ticks = ticks
+        except Exception:
+            self._drop_dimension(index)
+            raise
         if self.file.auto_update_timestamps:
             self.force_updated_at()
-        if ticks is not None:
-            rdim.ticks = ticks
         return rdim
 
     def append_range_dimension_using_self(self, index=None):
@@ -183,6 +195,15 @@ class DataArray(Entity, DataSet):
         if self.file.auto_update_timestamps:
             self.force_updated_at()
         return rdim
+
+    def _drop_dimension(self, index):
+        """
+        Remove the dimension descriptor that a refused append_*_dimension call
+        has started to create.
+        """
+        dimgroup = self._h5group.open_group("dimensions")
+        if str(index) in dimgroup:
+            del dimgroup[str(index)]
 
     def delete_dimensions(self):
         """
